@@ -37,6 +37,10 @@ def commands():
         with open(os.path.join(_HOME, "marker.txt"), "w") as f_:
             f_.write("import-time working directory of the harness\n")
         atexit.register(shutil.rmtree, _HOME, True)
+        # the same for what the environment says about places: a stale $PWD (the harness changes directory without
+        # telling the environment, like any program started with cwd=...) and $HOME point at the scratch folder
+        os.environ["PWD"] = _HOME
+        os.environ["HOME"] = _HOME
         old_ = os.getcwd()
         os.chdir(_HOME)
         try:
